@@ -783,3 +783,59 @@ func balancedParens(s string) bool {
 	}
 	return d == 0
 }
+
+// SK: stack operand shapes (finding 70). Every operand of StackDense contributes one block of
+// the first operand's shape; the block arithmetic of both copy schemes assumes it. Before the
+// result is allocated a loop over the further operands must refuse (error return) an operand of
+// another rank and an operand with a differing dimension.
+func SK(rc *RC) {
+	rc.S.Declare("SK", "stack operand shapes: before allocating its result StackDense refuses, in a loop over the further operands, an operand whose rank or any dimension differs from the first operand's", 1)
+	key := "tensor.(StdEng).StackDense"
+	fi := anchor(rc, "SK", key)
+	if fi == nil {
+		return
+	}
+	pos := rc.P.Pos(fi.Decl.Pos())
+	_, tree := sCanon(rc, fi)
+	rank, dim := false, false
+	for _, n := range tree {
+		if (n.Kind == "let" || n.Kind == "store") && strings.Contains(n.Value, "recycledDense(") {
+			break
+		}
+		if n.Kind != "range" || !strings.HasPrefix(n.Head, "range $others as ") {
+			continue
+		}
+		for _, k := range flatten(n.Kids) {
+			if k.Kind != "if" || !strings.Contains(k.Head, "!=") {
+				continue
+			}
+			refuses := false
+			for _, b := range flatten(k.Kids) {
+				if b.Kind == "let" && b.Target == "$ret1" && strings.Contains(b.Value, "rrors.") {
+					refuses = true
+				}
+			}
+			if !refuses {
+				continue
+			}
+			if strings.Contains(k.Head, "len(") || strings.Contains(k.Head, ".Dims()") {
+				rank = true
+			} else if strings.Contains(k.Head, "[@r") {
+				dim = true
+			}
+		}
+	}
+	switch {
+	case rank && dim:
+		rc.S.Ok("SK", key, pos, "operands of another rank or with a differing dimension are refused before the result is built")
+	default:
+		var miss []string
+		if !rank {
+			miss = append(miss, "an operand of another rank")
+		}
+		if !dim {
+			miss = append(miss, "an operand with a differing dimension")
+		}
+		rc.S.Viol("SK", key, pos, "no refusal of "+strings.Join(miss, " nor of ")+" before the result is allocated: the block copies read and write by the first operand's geometry").Sig = "no shape check"
+	}
+}
